@@ -262,7 +262,7 @@ def rotate_to(src, tgt):
         safe_div(src, norm_src),
         safe_div(tgt, norm_tgt),
         src
-    ).squeeze()
+    ).squeeze(1)
 
     rotated = rotated_tgt * safe_div(norm_tgt, norm_src).detach()
 
